@@ -738,5 +738,5 @@ def run(run: Run):
     from .common import shared_mechanisms as _shared
     _shared(run, 'C01', 10, ['stored-values', 'addresses'])
     from .common import shared_mechanisms as _shared_f
-    _shared_f(run, 'C01', 12, ['formulas'])
+    _shared_f(run, 'C01', 12, ['formulas', 'facade'])
     return INFO
